@@ -1,5 +1,6 @@
 import Acra.Lemmas.CRCMpeg
 import Acra.Lemmas.MPEGTS
+import Acra.Lemmas.MpegFlip
 import Acra.Props.C09.Mpeg
 namespace Acra.Props.C07
 open Acra.Py Acra.Model.MPEGTS Acra.Model.PMT Acra.Model.PES Acra.Lemmas.CRCMpeg
@@ -149,13 +150,14 @@ theorem slice_after_changed (pre suf : Bytes) (a : UInt8) (lo hi : Nat) (h : pre
   have : List.drop lo pre = [] := List.drop_eq_nil_of_le (by omega)
   rw [this, List.nil_append, hm, List.drop_succ_cons]
 
-/-- **STANAG.detects_flip** at the level of the decoded PES data: if a 36-byte metadata block is
-    accepted, the block that differs from it in exactly one byte of the checksummed region
-    `[5, 34)` (key, BER length, tags, lengths, time) is rejected -/
-theorem STANAG_detects_flip_partial (t : STANAG) (buf buf' : Bytes) (p p' : PES) (pre suf : Bytes) (a a' : UInt8)
+/-- STANAG.detects_flip at the level of the decoded PES data (stepping stone for
+    `STANAG_detects_flip` in MpegFlip.lean, which is stated on the 188-byte buffer): if a 36-byte
+    metadata block is accepted, the block that differs from it in exactly one byte of `[5, 36)` — the
+    checksummed region (key, BER length, tags, lengths, time) or the stored checksum — is rejected -/
+theorem STANAG_detects_flip_pesdata (t : STANAG) (buf buf' : Bytes) (p p' : PES) (pre suf : Bytes) (a a' : UInt8)
     (hp : PES.unpack t.pes buf = (p, .ok ())) (hp' : PES.unpack t.pes buf' = (p', .ok ()))
     (hd : p.pesdata = pre ++ a :: suf) (hd' : p'.pesdata = pre ++ a' :: suf) (hne : a ≠ a')
-    (hlen : (pre ++ a :: suf).length = 36) (hpos : 5 ≤ pre.length ∧ pre.length < 34)
+    (hlen : (pre ++ a :: suf).length = 36) (hpos : 5 ≤ pre.length ∧ pre.length < 36)
     (hok : (STANAG.unpack t buf).2 = .ok ()) : (STANAG.unpack t buf').2 ≠ .ok () := by
   intro hok'
   have h1 := (Acra.Props.C09.STANAG_accepts_iff t buf p hp).mp hok
@@ -167,8 +169,16 @@ theorem STANAG_detects_flip_partial (t : STANAG) (buf buf' : Bytes) (p p' : PES)
   obtain ⟨_, _, _, _, _, c2⟩ := h2
   rw [hlen] at c1
   rw [hlen'] at c2
-  rw [slice_one_changed pre suf a 5 (36 - 2) hpos.1 (by omega), slice_after_changed pre suf a 34 36 (by omega) (by omega)] at c1
-  rw [slice_one_changed pre suf a' 5 (36 - 2) hpos.1 (by omega), slice_after_changed pre suf a' 34 36 (by omega) (by omega)] at c2
-  exact checksum_detects_byte _ _ a a' hne (c1.trans c2.symm)
+  by_cases hin : pre.length < 34
+  · rw [slice_one_changed pre suf a 5 (36 - 2) hpos.1 (by omega), slice_after_changed pre suf a 34 36 (by omega) (by omega)] at c1
+    rw [slice_one_changed pre suf a' 5 (36 - 2) hpos.1 (by omega), slice_after_changed pre suf a' 34 36 (by omega) (by omega)] at c2
+    exact checksum_detects_byte _ _ a a' hne (c1.trans c2.symm)
+  · rw [slice_append_left pre (a :: suf) (by omega), slice_one_changed pre suf a 34 36 (by omega) hpos.2] at c1
+    rw [slice_append_left pre (a' :: suf) (by omega), slice_one_changed pre suf a' 34 36 (by omega) hpos.2] at c2
+    have e := c1.symm.trans c2
+    simp only [decInt, if_true] at e
+    have := Acra.Lemmas.MpegFlip.beNat_inj _ _ (by simp) e
+    simp at this
+    exact hne this
 
 end Acra.Props.C07
